@@ -165,3 +165,23 @@ package runtime
 //@   ensures implies(result1 != nil, failedDuring)
 //@   ensures implies(old(failedDuring), failedDuring)
 //@   ensures implies(result1 == nil, inL(result0, JSON_HTMLSAFE))
+
+// ---------------------------------------------------------------------------
+// C05: style attribute maps and key/value pairs: every name and value written comes from the sanitisers and is
+// HTML-escaped (the attribute value is escaped once more at the sink, C01). Plain strings are CSS-string-escaped
+// by design (they may hold several declarations) and are outside the property.
+//@ func processStringKV [C05]
+//@   requires sb != nil
+//@   modifies *sb
+//@   assert before sb.WriteString#1: arg0 == html.EscapeString(name) && inL(name, CSS_NAME_SAFE)
+//@   assert before sb.WriteString#2: arg0 == html.EscapeString(value) && inL(value, CSS_VALUE_SAFE)
+//@   ensures sb.String() == cat(old(sb.String()), html.EscapeString(name), ":", html.EscapeString(value), ";")
+//@ func processStringMap [C05]
+//@   requires sb != nil
+//@   modifies *sb
+//@   assert before sb.WriteString#1: arg0 == html.EscapeString(name) && inL(name, CSS_NAME_SAFE)
+//@   assert before sb.WriteString#2: arg0 == html.EscapeString(value) && inL(value, CSS_VALUE_SAFE)
+//@ func processSafeCSSPropertyMap [C05]
+//@   requires sb != nil
+//@   modifies *sb
+//@   assert before sb.WriteString#1: inL(html.UnescapeString(arg0), CSS_NAME_SAFE)
